@@ -138,6 +138,10 @@ def make_md(cfg, prefix):
     from seqm.seqm_functions.constants import Constants
 
     sp_np, xyz_np = build_batch(cfg)
+    if cfg.get("init") is not None:
+        # explicit phase-space point (time-reversal families): real-atom rows only
+        for m, x in enumerate(cfg["init"]["coords"]):
+            xyz_np[m, : len(x)] = np.array(x)
     species = torch.as_tensor(sp_np, dtype=torch.int64)
     coords = torch.as_tensor(xyz_np, dtype=torch.float64)
     params = seqm_parameters(cfg)  # the SAME dict object goes to Molecule and to the driver
@@ -158,6 +162,12 @@ def make_md(cfg, prefix):
         md = NDm.SurfaceHoppingDynamics(initial_state=cfg.get("initial_state", 1), damp=cfg.get("damp"), **common)
     else:
         raise ValueError(eng)
+    init = cfg.get("init")
+    if init is not None:
+        vel = torch.zeros_like(mol.coordinates)
+        for m, v in enumerate(init["vel"]):
+            vel[m, : len(v)] = torch.as_tensor(v, dtype=torch.float64)
+        mol.velocities = vel.detach()
     uv = cfg.get("user_vel")
     if uv is not None:
         rng = core.rng_for("uservel", uv["seed"])
